@@ -4,6 +4,7 @@ import (
 	"encoding/json"
 	"fmt"
 	"io"
+	"sort"
 
 	"github.com/sirupsen/logrus"
 
@@ -28,6 +29,7 @@ type c23Event struct {
 	Reply  *dml2.Reply          `json:"reply,omitempty"`
 	Post   map[string][][]Value `json:"post,omitempty"`
 	Audit  [][]Value            `json:"audit"` // the whole audit table ordered by seq: [seq, tid, o.., n..]
+	Cnt    int                  `json:"cnt"`   // @cnt after the statement
 	SQL    string               `json:"sql,omitempty"`
 	Tags   []string             `json:"tags,omitempty"`
 }
@@ -41,22 +43,41 @@ type c23Runner struct {
 	rel    int
 	fired  int
 	multi  int
+	// trigger shapes
+	cascading  int // triggers whose body writes another table
+	dmlNotLast int // DML statements of a body that are not its last statement
+	blocks     int // bodies of several statements
+	deep       int // statements whose audit entries come from more than one table's triggers
 }
 
 func (r *c23Runner) history(hn int, h *dml2gen.TrigHistory, ids []int) {
-	w := len(h.Table.Cols)
-	extra := []string{dml2gen.AuditCreateSQL(w)}
-	for _, t := range h.Trigs {
-		extra = append(extra, t.SQL(w))
-	}
-	names := []string{dml2gen.TrigBase}
-	fx, create, err := dml2.NewFixture(names, map[string]*Table{dml2gen.TrigBase: h.Table}, extra...)
+	names := h.Names
+	fx, create, err := dml2.NewFixture(names, h.Tables, h.Extra()...)
 	if err != nil {
 		vio.Fatal("history %d: %v", hn, err)
 	}
-	r.w.Write(c23Event{Ev: "schema", H: hn, Tabs: map[string]*Table{dml2gen.TrigBase: h.Table.Fix()}, Trigs: h.Trigs, Create: create, Audit: [][]Value{}})
+	tabs := map[string]*Table{}
+	for _, n := range names {
+		tabs[n] = h.Tables[n].Fix()
+	}
+	r.w.Write(c23Event{Ev: "schema", H: hn, Tabs: tabs, Trigs: h.Trigs, Create: create, Audit: [][]Value{}})
 	for _, t := range h.Trigs {
-		r.bodies[t.Timing+" "+t.Event+" "+t.Body.K]++
+		nd := 0
+		for k, b := range t.Body {
+			r.bodies[t.Timing+" "+t.Event+" "+b.K]++
+			if b.K == "ins" || b.K == "upd" || b.K == "del" {
+				nd++
+				if k < len(t.Body)-1 {
+					r.dmlNotLast++
+				}
+			}
+		}
+		if nd > 0 {
+			r.cascading++
+		}
+		if len(t.Body) > 1 {
+			r.blocks++
+		}
 		if t.Rel != "" {
 			r.rel++
 		}
@@ -69,6 +90,11 @@ func (r *c23Runner) history(hn int, h *dml2gen.TrigHistory, ids []int) {
 		e := c23Event{Ev: "step", H: hn, ID: ids[i], Stmt: st.Fix(), Trigs: []dml2gen.Trigger{}, Tags: Tags(st, fx.Tabs[st.T])}
 		e.SQL, e.Reply = fx.Exec(st)
 		e.Post = dml2.ReadAll(fx.Sess, names)
+		if c := fx.Sess.Exec("SELECT @cnt"); c.Kind == "rows" && len(c.Rows) == 1 && c.Rows[0][0].T == "i" {
+			e.Cnt = c.Rows[0][0].V.(int)
+		} else {
+			e.Cnt = -1
+		}
 		au := fx.Sess.Exec("SELECT * FROM " + dml2gen.TrigAudit + " ORDER BY seq")
 		e.Audit = au.Rows
 		if au.Kind != "rows" {
@@ -86,11 +112,26 @@ func (r *c23Runner) history(hn int, h *dml2gen.TrigHistory, ids []int) {
 		if added > 1 {
 			r.multi++
 		}
+		if added > 0 {
+			// entries written by triggers of a table other than the statement's: the cascade reached it
+			own := map[int]bool{}
+			for _, t := range h.Trigs {
+				if t.Table == st.T {
+					own[t.TID] = true
+				}
+			}
+			for _, row := range e.Audit[last:] {
+				if len(row) > 1 && row[1].T == "i" && !own[row[1].V.(int)] {
+					r.deep++
+					break
+				}
+			}
+		}
 		if show {
 			fmt.Printf("%s;\n-- %s %s aff=%d audit+%d %s\n", e.SQL, e.Reply.Kind, e.Reply.Class, e.Reply.Affected, added, e.Reply.Msg)
 		}
 		if len(r.rep.Samples) < 3 && added > 2 {
-			r.rep.Samples = append(r.rep.Samples, map[string]interface{}{"triggers": create[2:], "sql": e.SQL, "audit_rows_added": added})
+			r.rep.Samples = append(r.rep.Samples, map[string]interface{}{"triggers": create[len(names)+2:], "sql": e.SQL, "audit_rows_added": added})
 		}
 		last = len(e.Audit)
 	}
@@ -131,7 +172,11 @@ func runC23(o opts, w *vio.Writer, rep *vio.Report) {
 			switch e.Ev {
 			case "schema":
 				flush()
-				cur = &dml2gen.TrigHistory{Table: e.Tabs[dml2gen.TrigBase], Trigs: e.Trigs}
+				cur = &dml2gen.TrigHistory{Tables: e.Tabs, Trigs: e.Trigs}
+				for n := range e.Tabs {
+					cur.Names = append(cur.Names, n)
+				}
+				sort.Strings(cur.Names)
 				curH = e.H
 			case "step":
 				if cur != nil {
@@ -153,4 +198,8 @@ func runC23(o opts, w *vio.Writer, rep *vio.Report) {
 	rep.Extra["triggers_with_follows_or_precedes"] = r.rel
 	rep.Extra["statements_that_fired_audit_triggers"] = r.fired
 	rep.Extra["statements_with_several_audit_rows"] = r.multi
+	rep.Extra["cascading_triggers"] = r.cascading
+	rep.Extra["body_dml_statements_not_last"] = r.dmlNotLast
+	rep.Extra["multi_statement_bodies"] = r.blocks
+	rep.Extra["statements_whose_cascade_fired_other_tables_triggers"] = r.deep
 }
